@@ -53,11 +53,29 @@
               for any depth bound d of the binary32 tree); E_bez is explicit
               (pin_E_bez), e.g. <= 1/40 for cubic segments with |c| <= 1024.
 
+     arc      under explicit accuracy hypotheses on libm's sin / cos (finite,
+              |result| <= 1, within el of the real function; hypotheses of the
+              theorem, not axioms): every vertex of the emitted arc is within
+              E_arc E el = 2^E (el + 2^-47) + 2^(E-23) per coordinate of the
+              vertex of the EXACT arc with the same centre, radius, start
+              angle, range and number of points -- the real numbers denoted by
+              the computed arc properties (C17_arc_vertex_ieee,
+              C17_arc_hausdorff_ieee_partial; the binary64 angle arithmetic:
+              C17_arc_angle_ieee, 2^-47).
+
    NOT proved (the property stays PARTIAL for this reason only):
-     - circular arcs: the IEEE rounding error of the binary32 / binary64
-       evaluation and libm's error in sin / cos / acosf / atan2.  It is
-       MEASURED by the oracle of harness/src/c17.rs against curves evaluated
-       in f64, with the exact bounds above plus an explicit rounding slack;
+     - circular arcs, the rest: (i) the chord / sagitta bound for the COMPUTED
+       number of points (C17_arc_hausdorff is about the count taken over the
+       reals; the computed count goes through acosf, a binary32 division and
+       ceil), (ii) the error of the computed centre, radius, start angle and
+       range themselves against the circle through the three control points
+       (circum-centre cancellation, atan2), (iii) that libm meets the accuracy
+       hypotheses.  These are MEASURED by the oracle of harness/src/c17.rs
+       against curves evaluated in f64, with the exact bounds above plus an
+       explicit rounding slack;
+     - Catmull, osu! mode: the 6 px simplification is proved over the reals
+       (C17_catmull_simplification_hausdorff); its binary64 distance
+       comparisons are not related to the real ones;
      - that the second control point of a perfect curve lies on the arc that
        is run through (the direction choice), and the angle of the last
        vertex: T17d has the end points under libm hypotheses only;
@@ -68,7 +86,7 @@ From RM Require Import Model.ControlPoints Model.Curve Gen.Generated Proofs.Bezi
   Proofs.HausdorffPlane Proofs.HausdorffArc Proofs.HausdorffBezierCore Proofs.HausdorffBezier
   Proofs.HausdorffCatmull Proofs.HausdorffCatmullDeriv Proofs.HausdorffSimplify
   Proofs.BezierIEEE Proofs.BezierIEEETight Proofs.VertexIEEEBase Proofs.VertexIEEECatmull Proofs.VertexIEEECatmullPath
-  Proofs.VertexIEEEBezierScalar Proofs.VertexIEEEBezier Proofs.VertexIEEEBezierPath.
+  Proofs.VertexIEEEBezierScalar Proofs.VertexIEEEBezier Proofs.VertexIEEEBezierPath Proofs.VertexIEEEArc.
 From Flocq Require Import Core BinarySingleNaN.
 From Coq Require Import Reals.
 Open Scope Z_scope.
@@ -670,11 +688,25 @@ Theorem C17_catmull_hausdorff_ieee :
 Proof. exact catmull_hausdorff_ieee. Qed.
 Print Assumptions C17_catmull_hausdorff_ieee.
 
+(* the same with the hypothesis on the control points only: consecutive
+   points at most L apart; the edge to the computed phantom point is then at
+   most L + 9/2 * 2^(E-24) long *)
+Theorem C17_catmull_hausdorff_ieee_points :
+  forall E points cat (L : R), 0 <= E <= 100 -> Forall (point_ok E) points ->
+  approximate_catmull points = Done cat -> (0 <= L)%R -> edges_le L (map posR points) ->
+  let spans := catmull_spans phantom32 (map pair_of points) in
+  let L' := (L + 9 / 2 * bpow radix2 (E - 24))%R in
+  cat = flat_map span_path32 spans /\
+  Forall (fun sp => let '(v1, v2, v3, v4) := spanR sp in
+            span_follows_ieee (3 * L' / 10000) (3 / 2 * E_cat E) v1 v2 v3 v4 (map posR (span_path32 sp))) spans.
+Proof. exact catmull_hausdorff_ieee_points. Qed.
+Print Assumptions C17_catmull_hausdorff_ieee_points.
+
 (* the hypotheses are satisfiable: (0,0) (100,50) (200,0), E = 8 *)
 Example C17_catmull_ieee_nonvacuous :
   map dump_pos ex_cat = [[0; 0]; [1120403456; 1112014848]; [1128792064; 0]] /\
-  Forall (point_ok 8) ex_cat /\ exists cat, approximate_catmull ex_cat = Done cat.
-Proof. split; [exact ex_cat_dump|]. split; [exact ex_cat_ok|exact ex_cat_runs]. Qed.
+  Forall (point_ok 8) ex_cat /\ edges_le 112 (map posR ex_cat) /\ exists cat, approximate_catmull ex_cat = Done cat.
+Proof. split; [exact ex_cat_dump|]. split; [exact ex_cat_ok|]. split; [exact ex_cat_edges|exact ex_cat_runs]. Qed.
 
 (* ---------- Bezier / B-spline ---------- *)
 
@@ -796,3 +828,82 @@ Example C17_bezier_ieee_nonvacuous :
 Proof.
   split; [exact ex_seg_dump|]. split; [exact ex_seg_ok|]. split; [vm_compute; discriminate|exact ex_seg_terminates_tight].
 Qed.
+
+(* ---------- circular arc ---------- *)
+
+Example pin_E_arc : forall E el, E_arc E el = (bpow radix2 E * (el + bpow radix2 (-47)) + bpow radix2 (E - 23))%R.
+Proof. reflexivity. Qed.
+
+(* the hypotheses on the computed arc properties: centre and radius finite
+   within 2^E, start angle finite within [-4, 4], direction +-1, range finite
+   within [0, 8] *)
+Example pin_arc_props_ok : forall E pr,
+  arc_props_ok E pr <->
+  (point_ok E (a_centre pr) /\ coord_ok E (a_radius pr) /\
+   is_finite (a_theta_start pr) = true /\ (Rabs (B2R (a_theta_start pr)) <= 4)%R /\
+   is_finite (a_direction pr) = true /\ (B2R (a_direction pr) = 1 \/ B2R (a_direction pr) = -1)%R /\
+   is_finite (a_theta_range pr) = true /\ (0 <= B2R (a_theta_range pr) <= 8)%R).
+Proof. intros. reflexivity. Qed.
+
+(* the binary64 angle of vertex i: theta_start + (i / (n - 1)) * (direction * range) *)
+Theorem C17_arc_angle_ieee :
+  forall (ts dir range : F64) (n : Z) (i : nat),
+  is_finite ts = true -> is_finite dir = true -> is_finite range = true ->
+  (Rabs (B2R ts) <= 4)%R -> (B2R dir = 1 \/ B2R dir = -1)%R -> (0 <= B2R range <= 8)%R ->
+  2 <= n <= 1000 -> Z.of_nat i <= n - 1 ->
+  let theta := D.add ts (D.mul (D.div (D.of_Z (Z.of_nat i)) (D.of_Z (n - 1))) (D.mul dir range)) in
+  is_finite theta = true /\
+  (Rabs (B2R theta - (B2R ts + INR i / IZR (n - 1) * (B2R dir * B2R range))) <= bpow radix2 (-47))%R.
+Proof. exact theta_ieee. Qed.
+Print Assumptions C17_arc_angle_ieee.
+
+(* one vertex, libm's accuracy as hypotheses *)
+Theorem C17_arc_vertex_ieee :
+  forall (lm : Libm) (el : R), (0 <= el)%R ->
+  (forall x : F64, is_finite x = true ->
+     is_finite (l_cos lm x) = true /\ (Rabs (B2R (l_cos lm x)) <= 1)%R /\ (Rabs (B2R (l_cos lm x) - cos (B2R x)) <= el)%R) ->
+  (forall x : F64, is_finite x = true ->
+     is_finite (l_sin lm x) = true /\ (Rabs (B2R (l_sin lm x)) <= 1)%R /\ (Rabs (B2R (l_sin lm x) - sin (B2R x)) <= el)%R) ->
+  forall E pr (n : Z) (i : nat), 0 <= E <= 100 -> arc_props_ok E pr -> 2 <= n <= 1000 -> Z.of_nat i <= n - 1 ->
+  let p := arc_point lm pr (D.of_Z (n - 1)) (D.mul (a_direction pr) (a_theta_range pr)) i in
+  let q := cpt (B2R (px (a_centre pr))) (B2R (py (a_centre pr))) (B2R (a_radius pr))
+               (B2R (a_theta_start pr) + INR i / IZR (n - 1) * (B2R (a_direction pr) * B2R (a_theta_range pr))) in
+  vertex_near (E_arc E el) p q.
+Proof. exact arc_point_ieee. Qed.
+Print Assumptions C17_arc_vertex_ieee.
+
+(* the emitted arc.  PARTIAL with respect to the wanted
+     C17_arc_hausdorff_ieee: "the computed arc and the circular arc through the
+     three control points are within 4 * tol + (explicit rounding term) of each
+     other, both ways":
+   proved here -- vertex by vertex, the emitted arc is within E_arc E el (per
+   coordinate) of arc_path_R taken at the real numbers the computed arc
+   properties denote, WITH THE SAME NUMBER OF POINTS n (2 <= n < 1000);
+   missing -- (i) the sagitta bound of C17_arc_hausdorff for this n (it is
+   proved for n = arc_sub_points_R, the count over the reals), (ii) the error
+   of the computed arc properties against the circle through a, b, c. *)
+Theorem C17_arc_hausdorff_ieee_partial :
+  forall (lm : Libm) (el : R), (0 <= el)%R ->
+  (forall x : F64, is_finite x = true ->
+     is_finite (l_cos lm x) = true /\ (Rabs (B2R (l_cos lm x)) <= 1)%R /\ (Rabs (B2R (l_cos lm x) - cos (B2R x)) <= el)%R) ->
+  (forall x : F64, is_finite x = true ->
+     is_finite (l_sin lm x) = true /\ (Rabs (B2R (l_sin lm x)) <= 1)%R /\ (Rabs (B2R (l_sin lm x) - sin (B2R x)) <= el)%R) ->
+  forall E a b c pr arc, 0 <= E <= 100 ->
+  circular_arc_properties lm a b c = Done (Some pr) -> arc_props_ok E pr ->
+  approximate_circular_arc lm a b c = Done (Some arc) ->
+  let n := arc_sub_points lm pr in
+  let arcR := arc_path_R (B2R (px (a_centre pr))) (B2R (py (a_centre pr))) (B2R (a_radius pr))
+                         (B2R (a_theta_start pr)) (B2R (a_direction pr)) (B2R (a_theta_range pr)) n in
+  2 <= n < arc_subpoint_cap /\ length arc = Z.to_nat n /\ length arcR = Z.to_nat n /\
+  forall i, (i < Z.to_nat n)%nat -> vertex_near (E_arc E el) (nth i arc pos0) (nth i arcR (0, 0)%R).
+Proof. exact arc_path_ieee. Qed.
+Print Assumptions C17_arc_hausdorff_ieee_partial.
+
+(* the hypotheses on the arc properties are satisfiable: centre (256, 192),
+   radius 100, start angle 0, range 3, counter-clockwise; E = 8 *)
+Example C17_arc_ieee_nonvacuous :
+  (S.bits (px (a_centre ex_arc_props)), S.bits (py (a_centre ex_arc_props)), S.bits (a_radius ex_arc_props),
+   D.bits (a_theta_start ex_arc_props), D.bits (a_theta_range ex_arc_props), D.bits (a_direction ex_arc_props))
+  = (1132462080, 1128267776, 1120403456, 0, 4613937818241073152, 4607182418800017408) /\
+  arc_props_ok 8 ex_arc_props.
+Proof. split; [vm_compute; reflexivity|exact ex_arc_props_ok]. Qed.
